@@ -421,6 +421,10 @@ func runC18(c *Check, w *World) {
 	tb := NewTB(w)
 	ef := NewEffects(tb)
 	restRules(c, w, tb, ef, "R18", nil)
+	// what the endpoints reflect must itself be right: the registry entry of each advertised name (the
+	// /ocra/suite and raw_suite answers) and the library's URL builder (the /otp/url answer)
+	ruleRegistryFidelity(c, w, "R18.8")
+	runC16(c, w)
 	c.Floor("R18.1", 20)
 	c.Floor("R18.2", 60)
 	c.Floor("R18.4", 2)
